@@ -1,4 +1,5 @@
-(** Wire entry points of property C13 (stub: replaced when the model is built). *)
+(** Wire entry points of property C13: same functions as E08 (sub 1 is the inert-output entry). *)
 From Coq Require Import ZArith List.
 From PLV Require Import Base.Wire.
-Definition entry (sub : Z) (inp : list Z) : list Z := bad_input.
+From PLV Require Entry.E08.
+Definition entry (sub : Z) (inp : list Z) : list Z := Entry.E08.entry sub inp.
